@@ -153,9 +153,12 @@ VIEW_FUNCS = {  # result may alias the first argument
 VIEW_METHODS = {"reshape", "ravel", "transpose", "squeeze", "view", "swapaxes", "diagonal", "get", "setdefault",
                 "values", "items", "keys", "__iter__", "__getitem__"}
 COPY_KW_FUNCS = {"numpy.array": True, "numpy.asarray": False}  # default of copy=
+_STD_CONTAINERS = {"collections.OrderedDict": "dict", "collections.defaultdict": "dict", "collections.Counter": "dict",
+                   "collections.ChainMap": "dict", "collections.deque": "list", "weakref.WeakValueDictionary": "dict",
+                   "weakref.WeakKeyDictionary": "dict", "weakref.WeakSet": "set"}
 MUTATOR_METHODS = {"append", "extend", "insert", "pop", "remove", "sort", "reverse", "clear", "update", "add",
                    "fill", "resize", "popitem", "discard", "setdefault", "itemset", "put", "partition",
-                   "setflags", "byteswap", "__setitem__", "__delitem__", "difference_update",
+                   "setflags", "byteswap", "__setitem__", "__delitem__", "difference_update", "move_to_end", "appendleft", "extendleft", "rotate",
                    "intersection_update", "symmetric_difference_update", "appendleft", "popleft", "setfield",
                    "__iadd__", "__isub__", "__imul__", "__itruediv__", "__ifloordiv__", "__imod__", "__ipow__", "__iand__",
                    "__ior__", "__ixor__", "__imatmul__"}
@@ -439,7 +442,7 @@ class FunctionAnalysis:
             return True
         if isinstance(d, ast.Call):
             t = self.p.resolve(self.m, d.func)
-            if t and (t.startswith("numpy.") or t in ("builtins.list", "builtins.dict", "builtins.set")):
+            if t and (t.startswith("numpy.") or t in ("builtins.list", "builtins.dict", "builtins.set", "builtins.bytearray") or t in _STD_CONTAINERS):
                 return True
         if isinstance(d, ast.Name):
             t = self.p.resolve_name(self.m, d.id)
@@ -944,6 +947,12 @@ class FunctionAnalysis:
             val = m.globals[name]
             if self._mutable_literal(val):
                 kind = "nd" if isinstance(val, ast.Call) else "list"
+                if isinstance(val, ast.Call):
+                    t_ = self.p.resolve(m, val.func) or ""
+                    if t_ in _STD_CONTAINERS or t_ in ("builtins.dict", "builtins.list", "builtins.set", "builtins.bytearray"):
+                        kind = _STD_CONTAINERS.get(t_, t_.rsplit(".", 1)[1] if t_.startswith("builtins.") else "dict")
+                        if kind == "bytearray":
+                            kind = "list"
                 return AV(frozenset([Origin(f"global:{tgt}")]), None, kind)
             return SCALAR
         # external object (np.inf, np.pi, np.float32, plt, ...)
